@@ -11,6 +11,8 @@ import Lessm.Model.Nest
 import Lean.Data.Json
 import Lessm.Spec.VarsSpec
 import Lessm.Spec.MediaSpec
+import Lessm.Model.Mixin
+import Lessm.Model.AtRule
 
 open Lessm
 
@@ -207,6 +209,137 @@ def run (payload : String) : String :=
                        ("spec", Json.arr ((specSheet sheet).toArray.map tripleJson))]).compress
 end MediaIO
 
+namespace MixinIO
+open Lean Lessm.Mixin Lessm.Vars
+
+def value (j : Json) : Except String Value := do (← j.getArr?).toList.mapM VarsIO.vtok
+
+def arg (j : Json) : Except String Arg := do
+  match j.getObjVal? "arith" with
+  | .ok a =>
+      let arr ← a.getArr?
+      let n ← (arr[0]!).getStr?
+      let k ← (arr[1]!).getInt?
+      pure (.arith n k)
+  | .error _ => do
+      let v ← value (← j.getObjVal? "val")
+      pure (.val v)
+
+partial def item (j : Json) : Except String Mixin.Item := do
+  match j.getObjVal? "d" with
+  | .ok d =>
+      let a ← d.getArr?
+      pure (.decl (← (a[0]!).getStr?) (← value (a[1]!)))
+  | .error _ =>
+    match j.getObjVal? "call" with
+    | .ok c =>
+        let a ← c.getArr?
+        let args ← (← (a[1]!).getArr?).toList.mapM arg
+        pure (.call (← (a[0]!).getStr?) args)
+    | .error _ =>
+        let r ← j.getObjValAs? (Array String) "r"
+        let b ← (← (← j.getObjVal? "b").getArr?).toList.mapM item
+        pure (.rule r.toList b)
+
+def cmpOf (s : String) : Guard.Cmp :=
+  match s with | ">" => .gt | "<" => .lt | "=" => .eq | ">=" => .ge | "=<" => .le | _ => .ne
+
+def gcond (j : Json) : Except String GCond := do
+  let a ← j.getArr?
+  let neg ← (a[0]!).getBool?
+  let p ← (a[1]!).getStr?
+  let c ← (a[2]!).getStr?
+  let l ← (a[3]!).getStr?
+  pure ⟨neg, p, cmpOf c, (parseRat l).getD 0⟩
+
+def top (j : Json) : Except String Top := do
+  match j.getObjVal? "mdef" with
+  | .ok m =>
+      let name ← m.getObjValAs? String "name"
+      let ps ← (← (← m.getObjVal? "params").getArr?).toList.mapM (fun pj => do
+        let a ← pj.getArr?
+        let n ← (a[0]!).getStr?
+        let d ← if (a[1]!).isNull then pure none else (do let v ← value (a[1]!); pure (some v))
+        pure (n, d))
+      let g ← (← (← m.getObjVal? "guard").getArr?).toList.mapM (fun ch => do (← ch.getArr?).toList.mapM gcond)
+      let b ← (← (← m.getObjVal? "b").getArr?).toList.mapM item
+      pure (.mdef name ⟨ps, g, b⟩)
+  | .error _ =>
+      let r ← j.getObjValAs? (Array String) "r"
+      let b ← (← (← j.getObjVal? "b").getArr?).toList.mapM item
+      pure (.rule r.toList b)
+
+def run (payload : String) : String :=
+  match Json.parse payload with
+  | .error e => "bad-json " ++ e
+  | .ok j =>
+    match j.getArr? with
+    | .error e => "bad-json " ++ e
+    | .ok arr =>
+      match arr.toList.mapM top with
+      | .error e => "bad-item " ++ e
+      | .ok sheet =>
+          match compile 400 sheet with
+          | .error (.unknownVar n) => (Json.mkObj [("err", Json.str ("unknown " ++ n))]).compress
+          | .error (.nameError n) => (Json.mkObj [("err", Json.str ("nameerror " ++ n))]).compress
+          | .error .crash => (Json.mkObj [("err", Json.str "crash")]).compress
+          | .error .hang => (Json.mkObj [("err", Json.str "hang")]).compress
+          | .error .notNumeric => (Json.mkObj [("err", Json.str "notnumeric")]).compress
+          | .ok out => (Json.arr (out.toArray.map (fun r =>
+              Json.arr #[Json.arr (r.sels.toArray.map (fun s => Json.str (Lessm.Sel.fmtOne "" s))),
+                         Json.arr (r.decls.toArray.map (fun d => Json.arr #[Json.str d.1, Json.str d.2]))]))).compress
+end MixinIO
+
+namespace AtIO
+open Lean Lessm.AtRule
+
+def decls (j : Json) : Except String (List Decl) := do
+  (← j.getArr?).toList.mapM (fun d => do
+    let a ← d.getArr?
+    pure ⟨← (a[0]!).getStr?, ← (a[1]!).getStr?⟩)
+
+partial def item (j : Json) : Except String Item := do
+  match j.getObjValAs? String "stmt" with
+  | .ok t => pure (.stmt t)
+  | .error _ =>
+    match j.getObjVal? "kf" with
+    | .ok k =>
+        let a ← k.getArr?
+        let fs ← (← (a[2]!).getArr?).toList.mapM (fun f => do
+          let fa ← f.getArr?
+          pure (⟨← (fa[0]!).getStr?, ← decls (fa[1]!)⟩ : Frame))
+        pure (.keyframes (← (a[0]!).getStr?) (← (a[1]!).getStr?) fs)
+    | .error _ =>
+      match j.getObjVal? "db" with
+      | .ok k =>
+          let a ← k.getArr?
+          pure (.declBlock (← (a[0]!).getStr?) (← decls (a[1]!)))
+      | .error _ =>
+        match j.getObjVal? "rule" with
+        | .ok k =>
+            let a ← k.getArr?
+            pure (.rule (← (a[0]!).getStr?) (← decls (a[1]!)))
+        | .error _ =>
+            let q ← j.getObjValAs? String "media"
+            let b ← (← (← j.getObjVal? "b").getArr?).toList.mapM item
+            pure (.media q b)
+
+def run (payload : String) : String :=
+  match Json.parse payload with
+  | .error e => "bad-json " ++ e
+  | .ok j =>
+    match (do
+      let env ← (← (← j.getObjVal? "env").getArr?).toList.mapM (fun p => do
+        let a ← p.getArr?
+        pure ((← (a[0]!).getStr?), (← (a[1]!).getStr?)))
+      let sheet ← (← (← j.getObjVal? "sheet").getArr?).toList.mapM item
+      pure (env, sheet) : Except String (List (String × String) × List Item)) with
+    | .error e => "bad-item " ++ e
+    | .ok (env, sheet) =>
+        let ev : String → String := fun v => match env.find? (·.1 == v) with | some p => p.2 | none => v
+        printList (evalList ev sheet) |>.replace "\n" "\\n"
+end AtIO
+
 def handle (op : String) (payload : String) : String :=
   let args := (payload.splitOn " ").filter (· ≠ "")
   match op, args with
@@ -235,6 +368,8 @@ def handle (op : String) (payload : String) : String :=
     | "c02.flat", [j] => nestFlat j
     | "c03.run", [j] => VarsIO.run j
     | "c07.run", [j] => MediaIO.run j
+    | "c05.run", [j] => MixinIO.run j
+    | "c19.run", [j] => AtIO.run j
     | "c17.unknown", name :: rest => Builtins.callUnknown name rest
     | "c06.guard", [g] =>
         match parseGuard g with
